@@ -604,7 +604,7 @@ impl SparqlDatabase {
                 if i == 0 {
                     output.push(' ');
                 } else {
-                    output.push_str(" ;\n    ");
+                    output.push_str(" ; ");
                 }
                 output.push_str(&format!("<{}>", predicate));
 
